@@ -26,7 +26,8 @@ strengthened check was re-run on the unchanged tree at several seeds.
 ideas and asked for different mechanisms, concurrency- and fault-timing-driven ones in particular):
 {sum(1 for r in rows if '**yes**' in r)} were caught at once by the owning property's check as it stood,
 {sum(1 for r in rows if 'missed, then caught' in r)} only after that check was strengthened, and
-{sum(1 for r in rows if ('**yes**' not in r and 'missed, then caught' not in r))} are caught by another property's check (named in the last column) because the changed
+{sum(1 for r in rows if 'made reliable' in r)} was caught at once but not on every run, and the check was strengthened until it was, and
+{sum(1 for r in rows if ('**yes**' not in r and 'missed, then caught' not in r and 'made reliable' not in r))} are caught by another property's check (named in the last column) because the changed
 code is that property's subject.  Every one of them makes its check exit 1 with a VIOLATION line
 when applied to /repo (`confirmed_on_repo` in each meta.json), and all checks are silent on the
 unchanged tree.
